@@ -588,13 +588,22 @@ def binop (fo : FOps) (md : Mode) (op : BinOp) (l r : Value) : Res :=
     | _, _ => .none
   | _ => .none
 
-/-- `eval_binary_op` (pattern expressions): comparisons as above, `==`/`!=`, lenient `and`/`or` -/
+/-- the `Ge`/`Le` arms of `eval_binary_op`: Int × Int and Float × Float only — the mixed arms are
+still missing there (tests/evaluator_pattern_tests.rs pins `None`), see the known finding of C08 -/
+def cmpValsSameKind (op : CmpOp) (l r : Value) : Res :=
+  match l, r with
+  | .int a, .int b => .val (.bool (op.holds (some (i64cmp a b))))
+  | .float a, .float b => .val (.bool (op.holds (F.cmp a b)))
+  | _, _ => .none
+
+/-- `eval_binary_op` (pattern expressions): `<`/`>` as above, `<=`/`>=` without mixed arms,
+`==`/`!=`, lenient `and`/`or` -/
 def patternBinop (md : Mode) (op : BinOp) (l r : Value) : Res :=
   match op with
   | .gt => cmpVals md .gt l r
   | .lt => cmpVals md .lt l r
-  | .ge => cmpVals md .ge l r
-  | .le => cmpVals md .le l r
+  | .ge => cmpValsSameKind .ge l r
+  | .le => cmpValsSameKind .le l r
   | .eq => .val (.bool (Value.eq l r))
   | .ne => .val (.bool (!Value.eq l r))
   | .and => .val (.bool ((l.asBool.getD false) && (r.asBool.getD false)))
@@ -626,6 +635,18 @@ def evalCmp (fo : FOps) (md : Mode) (ctx : Ctx) (op : CmpOp) (l r : Value) : Opt
     | .val (.bool b) => some b
     | _ => none
   | .sase => some (saseCmp md op l r)
+
+/-- one operand an integer, the other a float -/
+def mixedKinds (l r : Value) : Bool :=
+  match l, r with
+  | .int _, .float _ => true
+  | .float _, .int _ => true
+  | _, _ => false
+
+/-- the gap left in `.pattern` lambdas: `<=`/`>=` between an integer and a float (known finding
+`C08-pattern-le-ge-mixed`) -/
+def patternGap (ctx : Ctx) (op : CmpOp) (l r : Value) : Bool :=
+  ctx == .pattern && (op == .le || op == .ge) && mixedKinds l r
 
 /-! ### indexing and slicing -/
 
